@@ -357,9 +357,6 @@ pub fn expected_scene(p: &Program) -> m::Scene {
             }
         }
     }
-    if p.xml_mode == 2 {
-        s.extensions.push(("ext".into(), "http://example.com/ext".into()));
-    }
     s
 }
 
